@@ -68,6 +68,12 @@ func zzCheckTrace(id string, n, j int, failed bool, strict bool) {
 	}
 	zz.Assert(inc, "C07.once-and-in-order/"+id)
 	if !strict {
+		// a call whose argument count does not fit is rejected before or while
+		// its operands are evaluated; one that is accepted all the same has no
+		// licence to leave operands out
+		if !failed {
+			zz.Assert(len(tr) == n, "C07.accepted-call-evaluates-every-operand/"+id)
+		}
 		return
 	}
 	if j >= 0 && j < n {
